@@ -10,6 +10,19 @@ BASELINE = ("cd /repo && /venv/bin/python -m pytest -ra -q -p no:cacheprovider -
 
 # id -> (category, technique, level text, level note, design ref)
 CHECKS = {
+    "C16": ("exploration",
+            "Hypothesis grammar-based and mutation-based input generation for the XML and dictionary readers "
+            "plus a coverage-guided atheris (libFuzzer) campaign; outcome-classification oracle with exception "
+            "bucketing, invariants on returned documents and a hang watchdog",
+            "Arbitrary text, grammar-generated odML-vocabulary trees with injected faults, structural mutations "
+            "of valid files and odML-shaped dictionaries are fed to every entry point in strict and lenient "
+            "mode; the only accepted outcomes are a Document satisfying the C03/C04 invariants or a "
+            "ParserException, lenient mode must not raise on well-formed current-version input and must keep "
+            "valid top-level Sections. The thorough tier adds three libFuzzer campaigns (raw bytes with empty "
+            "and seeded corpus, structured via hypothesis.fuzz_one_input) with the oracle inside the target.",
+            "Dictionary inputs keep the container shape; 30 s watchdog; atheris from the offline wheelhouse "
+            "(campaign skipped with a note if it cannot be installed).",
+            "DESIGN.md section 5, C16"),
     "C17": ("fault_enumeration",
             "Hypothesis-generated directory trees of good and bad files run through the three batch tools in a "
             "scratch directory; file-system oracle (hashes, listing, confinement) + content oracle on outputs",
@@ -194,7 +207,7 @@ def main():
         },
         "engines": [
             {"name": "vf", "path": "vf/", "serves_properties": [c["property_id"] for c in checks],
-             "kind_free_text": "Python harness: Hypothesis strategies (documents, operation histories, "
+             "kind_free_text": "Python harness (atheris/libFuzzer target for C16 under vf/fuzz): Hypothesis strategies (documents, operation histories, "
                                "fault tables), exhaustive itertools enumeration on a 16-process pool, "
                                "independent reference models in vf/model, collect-classify-shrink runner "
                                "(vf/run.py) writing evidence and replay files"},
